@@ -2,14 +2,11 @@ import MtxVerif.Model.C40
 import MtxVerif.Gen.C40
 open MtxVerif MtxVerif.C40
 
-/-- is `Type.method:line` a blocking site of the generated table? -/
-def knownSite (s : String) : Bool :=
-  match s.splitOn ":" with
-  | [f, l] =>
-    match l.toNat? with
-    | some n => Gen.C40.ops.any fun o => Gen.C40.fnNames.getD o.fn "" == f && (o.site == n || o.line == n)
-    | none => false
-  | _ => false
+/-- does the generated table list a blocking operation (request, await-reply, reply, join, main select)
+inside function `Type.method`? -/
+def knownSite (f : String) : Bool :=
+  Gen.C40.ops.any fun o => Gen.C40.fnNames.getD o.fn "" == f &&
+    (o.role != .closeDone && o.role != .other)
 
 /-- One op = one stress run of the real loops.  The model's answer is `done` (the theorems say every
 operation, including shutdown, completes) followed by the sampled blocking sites that the extracted
